@@ -123,6 +123,10 @@ Definition remap_graph (H : mgraph) (pairs : list (N * N)) : option mgraph :=
   | _ => Some (nx_relabel (apply_map (remap_mapping pairs)) H)
   end.
 
+(** remap_graph(G, node_map) with node_map a list of node ids: mapping = {old: i + 1 for i, old in enumerate(node_map)} *)
+Definition remap_graph_list (H : mgraph) (l : list N) : option mgraph :=
+  remap_graph H (combine (map N.of_nat (seq 1 (length l))) l).
+
 (** product atoms without a reactant partner (repair 8092e28): sorted(n for n in H if n not in paired), numbered
     from len(canonical reactant graph) + 1 *)
 Fixpoint ninsert (k : N) (l : list N) : list N :=
@@ -256,3 +260,6 @@ Definition run_balance (G H : mgraph) : tok :=
 Definition run_bal_part (rs : list (nat * (mgraph * mgraph))) : tok :=
   let p := balance_partition rs in
   L [tlist (fun r : nat * (mgraph * mgraph) => tbool (bal_of r)) rs; tlist tnat (fst p); tlist tnat (snd p)].
+(** the list form of remap_graph followed by sync_atom_map_with_index, as the helpers step of the histories calls it *)
+Definition run_remap_list (H : mgraph) (l : list N) : tok :=
+  match remap_graph_list H l with Some X => tmgraph (set_amap X) | None => L [I (-1)] end.
